@@ -26,7 +26,7 @@ Reading of the property (DESIGN.md §6 C14):
   the offset reads as protocol identifier are not both zero — `tcp_attempt_rejects_bad_protocol`,
   `tcp_attempt_rejects_bad_length`, `tcp_*_resync_stray`, `tcp_*_resync_nonzero_noise`,
   `tcp_gives_up_nonzero_protocol`; what is still answered 'incomplete' although refutable:
-  `tcp_req_stray_still_waits_witness`;
+  `tcp_req_stray_still_waits_witness`, `tcp_req_stray_still_waits_common_witness`;
 * clause 3 carries the premise `buf.length ≥ 257`: with at most 256 bytes and every offset rejected the
   scanner says "incomplete" by design (`*_incomplete_short`), a unit test of the crate asserts it.
 -/
@@ -884,6 +884,25 @@ theorem tcp_req_stray_still_waits_witness :
     Tcp.decodeReq (Spec.tcpFrame 0x0100 0x0F [0x07]) = .ok (some (⟨0x0100, 0x0F, [0x07]⟩, ⟨0, 8⟩)) ∧
     Tcp.decodeReq ([0x42] ++ Spec.tcpFrame 0x0100 0x0F [0x07] ++ [1, 2, 3, 4])
       = .ok (some (⟨0x0100, 0x0F, [0x07]⟩, ⟨1, 8⟩)) := by decide +kernel
+
+/-- **the recorded residue, on an everyday request**: the same reading with the most common request kind.
+`42 | 01 00 00 00 00 06 17 03 00 00 00 01` is one stray byte in front of the complete well-formed
+read-holding-registers request (transaction 0x0100 — low byte 0, as for every 256th transaction of a
+counting client —, unit 0x17, address 0, quantity 1).  From offset 0 the protocol identifier read is `00 00`
+and the length field read is `00 00`: both are VISIBLE at offset 0, and no frame can carry length 0, but
+the length field is only ever compared against a PREDICTED PDU length, and there is none yet — the byte at
+offset 7 is the unit id 0x17, read as function code ReadWriteMultipleRegisters, which still waits for its
+count byte (offset 16; 13 bytes have arrived).  The predictor says 'incomplete' and so does `tcp::decode`,
+although the frame at offset 1 is complete; the same frame alone is found at ⟨0, 12⟩.  Four more bytes
+resolve it (the count byte arrives, the length field 0 is refuted, offset 1 is tried). -/
+theorem tcp_req_stray_still_waits_common_witness :
+    Tcp.decodeReq ([0x42] ++ Spec.tcpFrame 0x0100 0x17 [3, 0, 0, 0, 1]) = .ok none ∧
+    Tcp.decodeReq (Spec.tcpFrame 0x0100 0x17 [3, 0, 0, 0, 1])
+      = .ok (some (⟨0x0100, 0x17, [3, 0, 0, 0, 1]⟩, ⟨0, 12⟩)) ∧
+    [0x42] ++ Spec.tcpFrame 0x0100 0x17 [3, 0, 0, 0, 1]
+      = [0x42, 0x01, 0x00, 0x00, 0x00, 0x00, 0x06, 0x17, 0x03, 0x00, 0x00, 0x00, 0x01] ∧
+    Tcp.decodeReq ([0x42] ++ Spec.tcpFrame 0x0100 0x17 [3, 0, 0, 0, 1] ++ [1, 2, 3, 4])
+      = .ok (some (⟨0x0100, 0x17, [3, 0, 0, 0, 1]⟩, ⟨1, 12⟩)) := by decide +kernel
 
 /-- **bounded give-up on a non-Modbus stream**: at least 259 bytes in which none of the first 256 offsets
 reads protocol identifier 0 ⇒ an error (`ProtocolNotModbus`), in both directions, never 'incomplete' -/
